@@ -346,6 +346,10 @@ def treeLine (st : TState) (e : SExp) : TState × String :=
     else if phase == "after" && err == "nil" && name != "Close" then
       ({ st with dead := true }, s!"reject C12 {name}() on node {id} succeeded after the root was done")
     else (st, "ok")
+  | .list [.atom "monprobe", .atom calls, done] =>
+    if calls != "0" then ({ st with dead := true }, s!"reject C16 a monitor on a publisher that shut down before it became ready ran {calls} callbacks (events were waiting in its subscription)")
+    else if decBool done != some true then ({ st with dead := true }, "reject C16/C11 a monitor whose publisher shut down before it became ready is not done")
+    else (st, "ok")
   | .list [.atom "refread", .atom id, .atom verdict, before, after, bad] =>
     if verdict == "ok" then (st, "ok") else
       ({ st with dead := true }, s!"reject C15/C07/C06 node {id}: a Cache().List() taken while the node was being refiltered returned {repr bad}, which is neither its content before ({repr before}) nor after ({repr after}): a half-applied Refilter was visible")
